@@ -3,7 +3,9 @@ import sys
 from harness import common
 
 if __name__ == '__main__':
-    br = common.coq_build(None)
+    # everything the property theorems depend on (not: unclaimed work in progress under theories/)
+    common.coq_build(['theories/Gen/GenConst.vo', 'theories/Gen/GenFun.vo', 'theories/Gen/GenObj.vo'])
+    br = common.coq_build([f[:-2] + '.vo' for f in common.closure_files()])
     bad = common.hygiene()
     if bad:
         print('HYGIENE FAILURES:', bad)
